@@ -15,6 +15,25 @@ package drpcstream
 //@   invariant [free]     self.held == 0
 //@   published [p-range]  self.held <= 1
 
+// The flag is 1 whenever an operation returned from Lock/TryLock with the mutex (checkFinished reads
+// it to decide that no operation is in flight); callers see these bodies inlined.
+//@ func (*inspectMutex).Lock
+//@   inline
+//@   props C03 C07
+//@   effect returns-locked
+//@   check [C03.held-flag] m.held == 1 && held(m.Mutex)
+//@ func (*inspectMutex).TryLock
+//@   inline
+//@   props C03 C07
+//@   effect returns-locked
+//@   check [C03.held-flag] result == held(m.Mutex) && (result ==> m.held == 1)
+//@ func (*inspectMutex).Unlock
+//@   inline
+//@   props C03 C07
+//@   requires held(m.Mutex)
+//@   effect releases
+//@   check [C03.held-flag] !held(m.Mutex)
+
 // ---- packetBuffer: single-slot rendezvous between the connection reader (Put) and the consumer
 // ---- (Get ... Done); the reader's buffer is lent, not copied.
 
